@@ -431,6 +431,19 @@ def gen_fault_stream(ctx, bp, si, s, rng):
             extra = msggen.gen_unknown(rng, known) + (nested if rng.random() < 0.7 else b"")
             cut = rng.randint(0, 1) * len(payload)
             payload2 = payload[:cut] + extra + payload[cut:]
+            if rng.random() < 0.5 and s.classes[ci].fields:
+                # ... and, as the LAST record of the frame, a KNOWN field number with a wire type its declared type cannot have
+                # (what an older reader sees when a field changed its type): kept as unknown, and the frame ends right after it
+                # (seeded change C10-9: the end-of-frame test missing from the non-fitting-wire-type branch)
+                f = rng.choice(s.classes[ci].fields)
+                want = {"string": 2, "bytes": 2, "message": 2, "map": 2, "double": 1, "fixed64": 1, "sfixed64": 1,
+                        "float": 5, "fixed32": 5, "sfixed32": 5}.get(f.proto_type, 0)
+                if want == 2 or (f.card == "repeated"):
+                    misfit = ev((f.number << 3) | 0) + ev(rng.getrandbits(20)) if want == 2 else ev((f.number << 3) | (5 if want != 5 else 1)) + bytes(4 if want != 5 else 8)
+                else:
+                    misfit = ev((f.number << 3) | (5 if want != 5 else 1)) + bytes(4 if want != 5 else 8)
+                payload2 = payload2 + misfit
+                ctx.count("raw_frame_ends_with_misfit_record")
             frames.append(msggen.enc_varint(len(payload2)) + payload2)
             readers.append(ci)
             wellformed.append(True)
